@@ -207,6 +207,25 @@ def check(spec):
                 if abs(e - 0.5 * u @ M @ u) > 1e-12 * (1 + abs(e)):
                     res.fail("ekin_is_half_uMu", site, abs(e - 0.5 * u @ M @ u), feats)
 
+    # ---- the body point enters linearly: f(s B) - f(0) = s (f(B) - f(0)) also for very small offsets s B (micro-scale
+    # lever arms, or metre offsets in a model that measures in kilometres); judged relative to the offset scale
+    if np.any(B != 0):
+        s_small = 1e-9
+        z3 = np.zeros(3)
+        for nm, fn in (("r_OP", lambda b: body.r_OP(t, q, B_r_CP=b)), ("v_P", lambda b: body.v_P(t, q, u, B_r_CP=b)),
+                       ("a_P", lambda b: body.a_P(t, q, u, ud, B_r_CP=b)), ("J_P", lambda b: body.J_P(t, q, B_r_CP=b))):
+            f0 = np.asarray(fn(z3), dtype=float)
+            dB = np.asarray(fn(B), dtype=float) - f0
+            ds = np.asarray(fn(s_small * B), dtype=float) - f0
+            if dB.size == 0:
+                continue
+            scale_ = float(np.max(np.abs(dB))) + 1e-300
+            res.ok()
+            # the difference f(sB) - f(0) carries the round-off of f: ulp(f0)/s
+            noise = 8 * float(np.max(np.spacing(np.abs(f0)))) / s_small if f0.size else 0.0
+            err = float(np.max(np.abs(ds / s_small - dB)))
+            if err > 1e-6 * scale_ + noise:
+                res.fail("offset_enters_linearly", f"{site}.{nm}", err / scale_, feats, f"relative defect {err / scale_:.3e} at offset scale 1e-9")
     rotating = kind != "frame" or "axis" in bs["motion"]
     res.nontrivial = bool(np.any(B != 0)) and rotating and kind != "point"
     res.label(site, "offset:" + ("zero" if not np.any(B) else "nonzero"))
